@@ -55,6 +55,9 @@ pub fn classify(prefix: &str, p: &GenPacket, r: &RefOut, ctx: &mut Ctx) {
     ctx.class(&format!("{prefix}start:{}", p.start.kind()));
     ctx.class(&format!("{prefix}ref_layers:{}", r.layers.len().min(7)));
     ctx.class(if r.ok() { "ref:accepted" } else { "ref:rejected" });
+    if p.bytes.len() > 1500 {
+        ctx.class(if p.bytes.len() > 65_535 { "size:>65535" } else if p.bytes.len() > 32_767 { "size:32768..65535" } else { "size:1501..32767" });
+    }
     if let Some(f) = r.faults.first() {
         ctx.class(&format!("{prefix}fault_at:{}", f.at));
     }
@@ -178,7 +181,7 @@ impl Property for C03 {
     }
     fn run_tape(&self, tape: &[u8], ctx: &mut Ctx) -> Result<(), Failure> {
         let mut t = Tape::new(tape);
-        let p = gen_packet(&mut t);
+        let p = gen_packet_big(&mut t);
         if ctx.counting {
             let r = refdec::decode(p.start, &p.bytes, false);
             classify("", &p, &r, ctx);
@@ -190,7 +193,7 @@ impl Property for C03 {
     }
     fn describe(&self, tape: &[u8]) -> Value {
         let mut t = Tape::new(tape);
-        let p = gen_packet(&mut t);
+        let p = gen_packet_big(&mut t);
         let mut v = input_json(p.start, &p.bytes);
         v["layers"] = json!(p.intent.layers);
         v["perturb"] = json!(p.intent.perturb);
